@@ -11,9 +11,9 @@ import (
 	"github.com/buildbarn/bb-storage/pkg/blobstore/buffer"
 	"github.com/buildbarn/bb-storage/pkg/blobstore/completenesschecking"
 	"github.com/buildbarn/bb-storage/pkg/blobstore/configuration"
-	pb_blobstore "github.com/buildbarn/bb-storage/pkg/proto/configuration/blobstore"
 	"github.com/buildbarn/bb-storage/pkg/blobstore/slicing"
 	"github.com/buildbarn/bb-storage/pkg/digest"
+	pb_blobstore "github.com/buildbarn/bb-storage/pkg/proto/configuration/blobstore"
 	"vsim/sim"
 
 	"google.golang.org/grpc/codes"
@@ -161,6 +161,10 @@ type c13Case struct {
 	// Configured: the decorator is assembled by NewBlobAccessFromConfiguration
 	// with the AC creator (batch size is then the code's constant)
 	Configured bool
+	// Repeat: the same decorator serves the same request twice; the second
+	// call is the one that is judged (presence must be established during
+	// that call, whatever an earlier call saw)
+	Repeat bool
 	// EmptyInjecting: the CAS handed to the decorator is wrapped in the
 	// empty-blob-injecting decorator, as the configuration code does for every
 	// top-level CAS: digests of size zero are answered by that wrapper
@@ -182,7 +186,7 @@ type c13Case struct {
 
 func (cs *c13Case) String() string {
 	var b strings.Builder
-	fmt.Fprintf(&b, "fn=%v inst=%q batch=%d maxMsg=%d maxTree=%d configured=%v emptyInjecting=%v ac=%s", cs.Fn, cs.Inst, cs.Batch, cs.MaxMsg, cs.MaxTree, cs.Configured, cs.EmptyInjecting, c13ACKindNames[cs.ACKind])
+	fmt.Fprintf(&b, "fn=%v inst=%q batch=%d maxMsg=%d maxTree=%d configured=%v repeat=%v emptyInjecting=%v ac=%s", cs.Fn, cs.Inst, cs.Batch, cs.MaxMsg, cs.MaxTree, cs.Configured, cs.Repeat, cs.EmptyInjecting, c13ACKindNames[cs.ACKind])
 	if cs.ACKind == c13ACReader {
 		fmt.Fprintf(&b, "(cuts=%v errAt=%d)", cs.ACCuts, cs.ACErrAt)
 	}
@@ -658,35 +662,45 @@ func runC13Case(c *sim.RunCtx, cs *c13Case) *c13CAS {
 		} else {
 			ba = completenesschecking.NewCompletenessCheckingBlobAccess(ac, casBA, cs.Batch, cs.MaxMsg, cs.MaxTree)
 		}
-		var b buffer.Buffer
-		if cs.Composite {
-			child := digest.MustNewDigest(cs.Inst, cs.Fn, RefHash(cs.Fn, []byte("child")), 5)
-			b = ba.GetFromComposite(ctx, acDigest, child, slicer)
-		} else {
-			b = ba.Get(ctx, acDigest)
+		rounds := 1
+		if cs.Repeat {
+			rounds = 2
+			c.Count("probe_repeated_request", 1)
 		}
-		cas.done = true
-		switch cs.Consume {
-		case 0:
-			m, err := b.ToProto(&remoteexecution.ActionResult{}, 1<<24)
-			if err != nil {
-				gotErr = err
+		for round := 0; round < rounds; round++ {
+			// (records of an earlier round are dropped: each call stands alone)
+			cas.FM, cas.Gets, cas.done, ac.St = nil, nil, false, nil
+			got, gotErr = nil, nil
+			var b buffer.Buffer
+			if cs.Composite {
+				child := digest.MustNewDigest(cs.Inst, cs.Fn, RefHash(cs.Fn, []byte("child")), 5)
+				b = ba.GetFromComposite(ctx, acDigest, child, slicer)
 			} else {
-				got = m.(*remoteexecution.ActionResult)
+				b = ba.Get(ctx, acDigest)
 			}
-		default:
-			data, err := b.ToByteSlice(1 << 24)
-			if err != nil {
-				gotErr = err
-			} else {
-				var m remoteexecution.ActionResult
-				if uerr := proto.Unmarshal(data, &m); uerr != nil {
-					// the caller received bytes that are not an ActionResult: not a
-					// result in the sense of the property; recorded, not judged
-					c.Count("note_returned_bytes_not_an_action_result", 1)
-					gotErr = uerr
+			cas.done = true
+			switch cs.Consume {
+			case 0:
+				m, err := b.ToProto(&remoteexecution.ActionResult{}, 1<<24)
+				if err != nil {
+					gotErr = err
 				} else {
-					got = &m
+					got = m.(*remoteexecution.ActionResult)
+				}
+			default:
+				data, err := b.ToByteSlice(1 << 24)
+				if err != nil {
+					gotErr = err
+				} else {
+					var m remoteexecution.ActionResult
+					if uerr := proto.Unmarshal(data, &m); uerr != nil {
+						// the caller received bytes that are not an ActionResult: not a
+						// result in the sense of the property; recorded, not judged
+						c.Count("note_returned_bytes_not_an_action_result", 1)
+						gotErr = uerr
+					} else {
+						got = &m
+					}
 				}
 			}
 		}
@@ -694,7 +708,7 @@ func runC13Case(c *sim.RunCtx, cs *c13Case) *c13CAS {
 	if c.Failed() {
 		return cas
 	}
-	if cs.Composite && slicer.calls != 1 {
+	if cs.Composite && !cs.Repeat && slicer.calls != 1 {
 		c.Count("note_slicer_calls_not_1", 1)
 	}
 	c13Judge(c, cs, cas, ac, got, gotErr, desc)
